@@ -1619,7 +1619,15 @@ pub fn ctl_system_ok(defs: &[Def]) -> bool {
 
 /// Proves a multi-table system; one proof per table.
 pub fn ctl_prove(defs: &[Def], tables: &[Rows], ctls: &[CtlSpec], cfg: &StarkConfig, lenient: bool) -> Result<Vec<Proof>, String> {
+    ctl_prove_adv(defs, tables, ctls, cfg, lenient, None)
+}
+
+/// Same with the adversarial running-sum strategy of hook H3c: `balance = Some(0)` shifts the whole Z
+/// column of the first looking table, `Some(1)` that of the looked table, so that the first-row values
+/// balance whatever the tables contain (every row-to-row difference and every helper column stays honest).
+pub fn ctl_prove_adv(defs: &[Def], tables: &[Rows], ctls: &[CtlSpec], cfg: &StarkConfig, lenient: bool, balance: Option<u8>) -> Result<Vec<Proof>, String> {
     assert!(ctl_system_ok(defs) && defs.len() == tables.len());
+    starky::verif_hooks::knobs::set_ctl_balance(balance);
     starky::verif_hooks::knobs::set_lenient_quotient(lenient);
     plonky2_field::verif_hooks::set_seed(Some(0x5eed_c10));
     let r = guarded(|| match defs.len() {
@@ -1629,6 +1637,7 @@ pub fn ctl_prove(defs: &[Def], tables: &[Rows], ctls: &[CtlSpec], cfg: &StarkCon
     });
     plonky2_field::verif_hooks::set_seed(None);
     starky::verif_hooks::knobs::set_lenient_quotient(false);
+    starky::verif_hooks::knobs::set_ctl_balance(None);
     match r {
         Ok(Ok(p)) => Ok(p),
         Ok(Err(e)) => Err(format!("error: {e:#}")),
